@@ -578,7 +578,9 @@ inline J plan_c01(uint64_t verif_seed, uint64_t index, int tier) {
     cfg.max_cells = (int)ro.range(1, 7);
     cfg.max_elems = (int)ro.range(1, tier ? 16 : 10);
     cfg.max_vertices = (int)ro.range(4, 40);
-    cfg.big_polygons = ro.chance(tier ? 0.08 : 0.03);
+    // (thousands of vertices cut down to pieces of 5 to 12 take the writer most of a minute: the watchdog's business,
+    // not a defect; over-long polygons meet the larger limits only)
+    cfg.big_polygons = ro.chance(tier ? 0.08 : 0.03) && (max_points == 0 || max_points >= 199);
     cfg.nonsimple_paths = ro.chance(0.4);
     cfg.robust_paths = ro.chance(0.4);
     cfg.multi_element_simple_paths = true;
@@ -768,7 +770,7 @@ inline J plan_c03(uint64_t verif_seed, uint64_t index, int tier) {
         cfg.max_cells = (int)ro.range(1, 6);
         cfg.max_elems = (int)ro.range(1, tier ? 14 : 9);
         cfg.max_vertices = (int)ro.range(4, 40);
-        cfg.big_polygons = ro.chance(0.04);
+        cfg.big_polygons = ro.chance(0.04) && (max_points == 0 || max_points >= 199);
         cfg.nonsimple_paths = ro.chance(0.3);
         cfg.robust_paths = ro.chance(0.3);
         cfg.multi_element_simple_paths = true;
@@ -900,6 +902,23 @@ inline J plan_c17(uint64_t verif_seed, uint64_t index, int tier) {
     if (source == 2) {
         m = gdsify(m);
         c03_extras(rm, m);
+    }
+    if (source != 2 && ro.chance(0.012)) {
+        // a structure of more than a megabyte (a rectangle repeated 150 x 150 times is 22 500 BOUNDARY
+        // elements in the file): raw cells are copied in one piece whatever their size
+        model::MCell big;
+        big.name = "BIG_" + std::to_string(ro.below(1000));
+        model::MPoly p;
+        p.layer = (uint32_t)ro.below(20);
+        p.dtype = (uint32_t)ro.below(20);
+        model::dg_t x0 = (model::dg_t)ro.range(-500, 500) * 10, y0 = (model::dg_t)ro.range(-500, 500) * 10;
+        p.pts = {model::Pt{x0, y0}, model::Pt{x0 + 40, y0}, model::Pt{x0 + 40, y0 + 30}, model::Pt{x0, y0 + 30}};
+        p.rep.type = model::REP_RECT;
+        p.rep.cols = 150;
+        p.rep.rows = 150;
+        p.rep.sp = model::Pt{60, 50};
+        big.polys.push_back(p);
+        m.cells.push_back(big);
     }
     // files gdstk writes for tags above 32767 (the field is a signed 16-bit number: out of the format's range,
     // but "any file produced by gdstk" all the same): nothing is said here about what such a tag loads as,
